@@ -69,6 +69,10 @@ func main() {
 			os.Exit(3)
 		}
 		parts := strings.SplitN(*dump, ":", 2)
+		if parts[0] == "bytes" {
+			debugByteSites(l, parts[1])
+			os.Exit(0)
+		}
 		fn := l.Fn(parts[0], parts[1])
 		if fn == nil {
 			fmt.Fprintln(os.Stderr, "no such function")
